@@ -162,6 +162,7 @@ macro_rules! c04_display {
     ($name:ident, $ty:ty, $n:literal, $l:literal, $unw:literal) => {
         #[kani::proof]
         #[kani::unwind($unw)]
+        #[kani::stub(core::str::from_utf8, crate::verif::refmodel::stub_from_utf8)]
         fn $name() {
             use core::fmt::Display;
             use core::fmt::Write;
@@ -246,7 +247,7 @@ c04_str!(c04_str_normal, Normal, 1, 35, 72, 76);
 
 //@ h=c04_display_short props=C04,C17 cfgs=K10 tier=q t=900 | funcs: <Short as Display>::fmt through core::fmt::write into a fixed sink (K10: from_utf8_unchecked arm) | bound: all values; to_string (allocation) covered only through this equality
 c04_display!(c04_display_short, Short, 15, 32, 36);
-//@ h=c04_display_short_safe props=C04 cfgs=K1 tier=t t=3600 | funcs: <Short as Display>::fmt with the checked from_utf8 arm | bound: all values
+//@ h=c04_display_short_safe props=C04 cfgs=K1 tier=q t=900 | funcs: <Short as Display>::fmt with the checked from_utf8 arm | bound: all values | stubs: core::str::from_utf8 -> contract (ASCII is valid UTF-8; non-ASCII fails the harness)
 c04_display!(c04_display_short_safe, Short, 15, 32, 36);
 //@ h=c04_display_normal props=C04 cfgs=K10 tier=t t=1200 | funcs: <Normal as Display>::fmt (from_utf8_unchecked arm) | bound: all values
 c04_display!(c04_display_normal, Normal, 35, 72, 76);
@@ -297,15 +298,20 @@ macro_rules! c05_parse {
                     }
                     i += 1;
                 }
-                // strict extras (decoded header values)
+                // strict extras: an error "applies" as soon as the digits of that field are
+                // hexadecimal and denote an impossible value (later characters may be anything)
                 let digits = &s[off..];
                 let mut strict_ck_ok = true;
                 let mut strict_len_ok = true;
-                if $strict && all_hex {
+                if $strict {
                     if $n == 15 {
-                        strict_ck_ok = ref_decode_byte(digits, $ck + 2, 0).unwrap() <= 48;
+                        if let Some(v) = ref_decode_byte(digits, $ck + 2, 0) {
+                            strict_ck_ok = v <= 48;
+                        }
                     }
-                    strict_len_ok = ref_decode_byte(digits, $ck + 2, $ck).unwrap() < 170;
+                    if let Some(v) = ref_decode_byte(digits, $ck + 2, $ck) {
+                        strict_len_ok = v < 170;
+                    }
                 }
                 let wellformed = prefix_ok && all_hex && strict_ck_ok && strict_len_ok;
                 match r {
@@ -324,8 +330,8 @@ macro_rules! c05_parse {
                         match e {
                             ParseError::InvalidPrefix => assert!(!prefix_ok),
                             ParseError::InvalidCharacter => assert!(!all_hex),
-                            ParseError::InvalidChecksum => assert!($strict && all_hex && !strict_ck_ok),
-                            ParseError::LengthIsTooLarge => assert!($strict && all_hex && !strict_len_ok),
+                            ParseError::InvalidChecksum => assert!($strict && !strict_ck_ok),
+                            ParseError::LengthIsTooLarge => assert!($strict && !strict_len_ok),
                             _ => assert!(false),
                         }
                         if $strict && prefix_ok && all_hex {
